@@ -16,6 +16,7 @@ import (
 
 func main() {
 	mon.Main("msgid", map[string]mon.PropFunc{
+		"C04": runC04Wire, // connection-level arm of C04 (write path incl. the compression branch)
 		"C07": runC07,
 		"C08": runC08,
 	})
